@@ -309,7 +309,7 @@ RecvFinExpand(p, op) ==
 YieldNow(p) == (p.in_status = "DATA_OTHER" /\ p.in_tx = p.out_tx) \/ p.odoate
 YieldP(p) == IF ~(p.in_status = "DATA_OTHER" /\ p.in_tx = p.out_tx) /\ p.odoate THEN [p EXCEPT !.odoate = FALSE] ELSE p
 YieldProg(p, rest) == IF ~YieldNow(p) THEN rest
-                      ELSE IF FixD4 THEN SubSeq(rest, 1, 3) \o <<Ret("DATA_OTHER")>>
+                      ELSE IF FixD4 THEN <<Tp("res_complete_early_yield", p.out_tx)>> \o SubSeq(rest, 1, 3) \o <<Ret("DATA_OTHER")>>   \* since the D4 fix: let go of the transaction, then yield
                       ELSE <<Tp("res_complete_early_yield", p.out_tx), Ret("DATA_OTHER")>>
 
 NewTxReq(p) ==
@@ -451,7 +451,10 @@ RetStep ==
             t == IF cur = "req" THEN P.in_tx ELSE P.out_tx
             nm == IF cur = "req" THEN (IF rc = "hdr" THEN "request_header_data" ELSE "request_trailer_data")
                   ELSE (IF rc = "hdr" THEN "response_header_data" ELSE "response_trailer_data")
-        IN /\ prog' = (IF rc # "none" /\ t # 0 THEN <<Cb(nm, t, "ign")>> ELSE <<>>) \o <<EndCall(StreamOf(v), TRUE)>>
+        \* DATA_BUFFER: the unconsumed tail is kept for the next call - unless that would exceed the hard field limit, in which case the
+        \* direction fails for good (htp_connp_re[qs]_buffer failing at the end of htp_connp_re[qs]_data)
+        IN /\ \E overlimit \in (IF v = "DATA_BUFFER" THEN {FALSE, TRUE} ELSE {FALSE}) :
+                prog' = (IF rc # "none" /\ t # 0 THEN <<Cb(nm, t, "ign")>> ELSE <<>>) \o <<EndCall(IF overlimit THEN "ERROR" ELSE StreamOf(v), TRUE)>>
            /\ UNCHANGED <<P, obs>>
      ELSE /\ prog' = <<EndCall(StreamOf(v), TRUE)>> /\ UNCHANGED <<P, obs>>
   /\ UNCHANGED <<cur, avail, calls>>
